@@ -3,6 +3,7 @@ import MosnVerif.Model.UpdatesSpec
 import MosnVerif.Model.DumpProto
 import MosnVerif.Model.ResourceUpd
 import MosnVerif.Model.DirHist
+import MosnVerif.Drive.C12Vhost
 /-!
 Driver for C12. Case line: `hist <op> …` (one token per operation, fields separated by `/`), implementation output:
 `<results> <liveRouters> <rebuiltRouters> <liveClusters> <rebuiltClusters>` (see harness/c12/c12.go).
@@ -481,6 +482,7 @@ def run (caseToks impl : List String) : String :=
   | "rsrc" :: ops => Rsrc.drive ops impl
   | "dirh" :: m :: ops => DirH.drive m ops impl
   | ["rlock", i, a, b, _] => rlock i a b impl
+  | "vht" :: r => C12Vhost.run r impl
   | "dump" :: items => Dump.drive items impl
   | ["rm", _, hs, as] => rm hs as impl
   -- support run: lookups concurrent with updates must have seen only whole configurations
